@@ -150,6 +150,12 @@ func (vc *VC) evalLoc(e SExpr, env *Env) []locSpec {
 		}
 	}
 	switch e := e.(type) {
+	case *SIdent:
+		if d, ok := env.derefs[e.Name]; ok {
+			addCell(d.cell, d.elem, e.String())
+		} else {
+			specFail("bad location %s", e)
+		}
 	case *SSelect, *SIndex:
 		ref, t := vc.lvalue(e, env)
 		addCell(ref, t, e.String())
@@ -874,10 +880,78 @@ selected:
 			vc.assumePath(Implies(And(f.reach, sc.guard), f.evalClause(e, envPost)))
 		}
 	}
+	f.applyInvokes(con, envPre, envPost, pre)
 	if con.NoReturn {
 		f.reach = TFalse
 	}
 	return res
+}
+
+// applyInvokes: callbacks the callee may have run (see InvokeSpec).
+func (f *frame) applyInvokes(con *Contract, envPre, envPost *Env, pre State) {
+	vc := f.vc
+	for _, inv := range con.Invokes {
+		fnv := f.evalClauseTV(Clause{Expr: inv.Fn, Text: inv.Fn.String(), Src: inv.Src}, envPre)
+		if fnv.T.Sort != SRef {
+			vc.unsupp("%s: invokes: not a function value", inv.Src)
+			continue
+		}
+		when := f.evalClause(Clause{Expr: inv.When, Text: inv.When.String(), Src: inv.Src}, envPost)
+		var mcs []*ssa.MakeClosure
+		for _, mc := range vc.closures {
+			if vc.closureFrames[mc] == f {
+				mcs = append(mcs, mc)
+			}
+		}
+		sort.Slice(mcs, func(i, j int) bool { return mcs[i].Name() < mcs[j].Name() })
+		for _, mc := range mcs {
+			cfn := mc.Fn.(*ssa.Function)
+			cc := vc.specs.Contracts[FuncName(cfn)]
+			if cc == nil {
+				vc.assumptions["callback "+FuncName(cfn)+" may run inside "+con.Func+" and has no contract: its writes to captured variables are not accounted for"] = true
+				continue
+			}
+			guard := vc.define(f.prefix+"_cb", And(Eq(fnv.T, f.val(mc)), when))
+			// arguments of the callback are unknown to the caller
+			var args []Term
+			var argTypes []types.Type
+			for _, p := range cfn.Params {
+				a := vc.freshConst(f.prefix+"_cbarg", vc.info(p.Type()).sort)
+				vc.assume(vc.typeInv(a, p.Type()))
+				args = append(args, a)
+				argTypes = append(argTypes, p.Type())
+			}
+			vc.curClosure = mc
+			cenvPre := f.calleeEnv(cc, cfn, cfn.Signature, args, argTypes, pre, pre, calleePkg(cfn))
+			var heap []SExpr
+			for _, a := range cc.Assigns {
+				if name, ok := dottedName(a); ok && vc.ghostVar(name) != nil {
+					continue // ghost effects are part of the callee's own contract
+				}
+				heap = append(heap, a)
+			}
+			f.havocLocs(vc.evalLocs(heap, cenvPre), guard, pre)
+			cenvPost := f.calleeEnv(cc, cfn, cfn.Signature, args, argTypes, f.cur, pre, calleePkg(cfn))
+			nres := cfn.Signature.Results().Len()
+			var resTVs []TV
+			for i := 0; i < nres; i++ {
+				rt := cfn.Signature.Results().At(i).Type()
+				r := vc.freshConst(f.prefix+"_cbres", vc.info(rt).sort)
+				resTVs = append(resTVs, TV{T: r, Ty: goTy(rt)})
+			}
+			cenvPost.result = resTVs
+			if resTVs == nil {
+				cenvPost.result = []TV{}
+			}
+			for _, e := range cc.Ensures {
+				if !f.modeOK(e.Mode) {
+					continue
+				}
+				vc.assumePath(Implies(And(f.reach, guard), f.evalClause(e, cenvPost)))
+			}
+			vc.curClosure = nil
+		}
+	}
 }
 
 func (f *frame) bindNamedResults(env *Env, callee *ssa.Function, sig *types.Signature, res []TV) {
